@@ -460,6 +460,28 @@ fn run_ws_case(m: &mut Model, ops: &[Op], max_txs: usize, auto_merge: bool, max_
                 (imp, m.ask(&format!("history {k}")), "history")
             }
             Op::State => {
+                // oracle (implementation only; Lean: each_committed_workspace_exactly_once): the chain's transactions
+                // are, as a multiset, exactly the operations of the workspaces in state Committed
+                if !broken {
+                    let mut want: BTreeMap<String, i64> = BTreeMap::new();
+                    for x in wss.iter().filter(|x| x.state() == TransactionState::Committed) {
+                        for o in x.operations() {
+                            *want.entry(show_real_tx(&o)).or_default() += 1;
+                        }
+                    }
+                    let mut have: BTreeMap<String, i64> = BTreeMap::new();
+                    for h in 0..=tc.height() {
+                        if let Some(b) = read_block(&store, h) {
+                            for t in &b.transactions {
+                                *have.entry(show_real_tx(t)).or_default() += 1;
+                            }
+                        }
+                    }
+                    if have != want {
+                        let diff: Vec<String> = have.keys().chain(want.keys()).filter(|k| have.get(*k) != want.get(*k)).map(|k| format!("{k}: chain {} / committed workspaces {}", have.get(k).unwrap_or(&0), want.get(k).unwrap_or(&0))).collect::<BTreeSet<_>>().into_iter().collect();
+                        out.violations.push(("tensor_chain.commit/chain_not_committed_workspaces_once".into(), format!("op {i}: the transactions of the chain's blocks are not exactly the operations of the Committed workspaces, each once: {}", diff.join("; "))));
+                    }
+                }
                 let imp = format!("{} meta={}", state_line(&tc, &store), meta_height(&store));
                 (imp, format!("{} meta={}", m.ask("state"), m.ask("meta")), "state")
             }
